@@ -218,6 +218,25 @@ pub fn handle(mut rq: Request, act: &Action, peer_expect: &str) -> ReqObs {
             let _ = w.flush();
             drop(w);
         }
+        "Y" => {
+            // raw writer: first half, flush, a pause, second half, drop
+            let data = unhex(rest);
+            let mut w = rq.into_writer();
+            let a = data.len() / 2;
+            let _ = w.write_all(&data[..a]);
+            let _ = w.flush();
+            std::thread::sleep(Duration::from_millis(3));
+            let _ = w.write_all(&data[a..]);
+            drop(w);
+        }
+        "Q" => {
+            // takes the raw writer and panics before the first write: unwinding drops the writer
+            let r = std::panic::catch_unwind(std::panic::AssertUnwindSafe(move || {
+                let _w = rq.into_writer();
+                panic!("handler panics while holding the request");
+            }));
+            assert!(r.is_err());
+        }
         "Z" => {
             // takes the raw writer and drops it untouched
             let w = rq.into_writer();
